@@ -486,6 +486,16 @@ def check_C16(ctx, rep):
                 later = any(f[0] == 'cmp' and f[5] is True and f[1] == 'lt' and contains(f[2], lambda x: side_state_field(x, 'blocking_until') is not None) and
                             contains(f[3], lambda x: action_field(x, 'BlockOutgoing', 'duration')) for f in S)
                 rep.ob('C16.R1', ds, 'store-guard-is-replace-or-later-expiry', rp or later, '' if (rp or later) else show_facts(S))
+                # the expiry compared with is the one of the side whose blocking is (re)written
+                cmp_sides = set()
+                for f in S:
+                    if f[0] == 'cmp' and f[1] in ('lt', 'le') and contains(f[3], lambda x: action_field(x, 'BlockOutgoing', 'duration')):
+                        for x in walk(f[2]):
+                            sp2 = side_state_field(x, 'blocking_until') if isinstance(x, tuple) else None
+                            if sp2:
+                                cmp_sides.add(sp2)
+                if cmp_sides:
+                    rep.ob('C16.R1', ds, 'later-expiry-test-reads-the-side-it-updates', cmp_sides == sides_u, 'compares with blocking_until of param %s, stores param %s' % (sorted(cmp_sides), sorted(sides_u)))
                 for f in st_until:
                     v2 = f[3]
                     okv = v2[0] == 'agg' and v2[2] == 'Some'
@@ -789,6 +799,23 @@ def peek_nonstrict(ctx, rep, rid, fname, what):
                 if is_call(y, 'duration_since'):
                     sides_seen.add(param_behind(fa, y[2][0]))
         rep.ob(rid, fn, 'result-records-a-slot-of-either-side', sides_seen >= {1, 2}, 'the result is computed from slots of parameters %s' % sorted(x for x in sides_seen if x))
+        # the running minimum is replaced only by a slot that is due now or later AND earlier than the minimum so far
+        rl = set()
+        for v in rv:
+            for y in walk(v):
+                if isinstance(y, tuple) and len(y) == 2 and y[0] == 'local':
+                    rl.add(y[1])
+        from .paths import stores as _stores
+        for h2, body2 in loops.items():
+            pfi2 = an.paths(fn, history=True, entry=h2)
+            for (pe, v, site, mp) in _stores(fa):
+                if site[0] in body2 and pe[0] == 'local' and not mp['pr'] and fa.fn.local_ty(pe[1]) == 'core::time::Duration' and is_call(unload(v), 'duration_since') and \
+                        len(fa.defs().get(pe[1], [])) >= 2:
+                    sts = pfi2.at(site[0], site[1])
+                    now = lambda e: strip_sites(e) == ('param', 3)
+                    okm, w = all_paths(sts, lambda S: (cmp_int_true(S, 'le', now, lambda r: not now(r)) or cmp_int_true(S, 'lt', now, lambda r: not now(r))) and
+                                       any(f[0] == 'cmp' and f[1] == 'lt' and f[5] is True and is_call(unload(f[2]), 'duration_since') for f in S))
+                    rep.ob(rid, fn, 'minimum-replaced-only-by-an-eligible-earlier-slot', okm and bool(sts), '' if okm else 'witness: ' + show_facts(w))
         rep.count_exact(rid, 'eligibility comparisons in ' + fname, n, 2)
         for h, body in loops.items():
             bad = []
@@ -2336,6 +2363,15 @@ def check_C19(ctx, rep):
     check_misc_simulator_tables(ctx, rep, 'C19')
     check_side_plumbing(ctx, rep, 'C19.R5')
     check_pick_next_none(ctx, rep, 'C19.R4')
+    # simulated time never moves backwards: the only adjustment pick_next makes to an event's time moves it FORWARD to
+    # current_time + <its queue duration> (a packet held by blocking leaves when the blocking ends)
+    pn2 = sim_fn(prog, 'pick_next')
+    pa2 = an.get(pn2)
+    for (pe, v, site) in field_stores(pa2, 'time', 'SimEvent'):
+        v2 = strip_sites(v)
+        okv = isinstance(v2, tuple) and v2 and v2[0] == 'call' and v2[1].endswith('::add') and len(v2[2]) == 2 and v2[2][0] == ('param', 5) and \
+            not contains(v2, lambda y: isinstance(y, tuple) and y and y[0] == 'call' and y[1].endswith('::sub'))
+        rep.ob('C19.R4', pn2, 'event-time-only-moved-forward', okv, 'time = %s' % shape(v)[:80])
     check_stop_conditions(ctx, rep, 'C19.R4')
     rep.rule('C19.R7', 'a copy of the simulator\'s inputs and state is a faithful copy: every Clone impl of the simulator crate (SimQueue and its '
              'event queues, SimEvent, ScheduledAction, the network model, SimulatorArgs ...) is the compiler-derived field-wise clone, so that '
@@ -2717,6 +2753,11 @@ def check_replace_promotion(ctx, rep, rid):
             ok, w = all_paths(pf.at_entry(b), own_flag)
             rep.ob(rid, ns, 'queued-packet-popped-only-by-bypass-padding', ok, '' if ok else 'witness: ' + show_facts(w))
     rep.count_floor(rid, 'promotion sites (bypass = true stores, pop_blocking calls) in sim_network_stack', n, 2)
+    # the promoted packet is a normal packet: it must not itself ask to replace what is queued (it would swallow another packet)
+    for (pe, v, site, mp) in stores(fa):
+        lf = last_field(pe)
+        if lf and lf[1] == 'replace' and lf[0].endswith('SimEvent') and root_of(pe)[0] == 'local' and num(v) is not None:
+            rep.ob(rid, ns, 'promoted-packet-does-not-replace', is_const(v, 0), 'entry.replace = %s' % shape(v))
 
 
 def check_bypass_classification(ctx, rep, rid):
